@@ -453,3 +453,59 @@ def u_rt_datetime(E):
     E.prove(tag + '/consumes-exactly-the-encoded-field', inc == 12, 'P')
     got = (dict_entries(E, d) or {}).get('DE2')
     E.prove(tag + '/same-datetime', z3.BoolVal(False) if not (isinstance(got, VOpaque) and got.sort_name == 'datetime') else got.t == dt, 'P')
+
+
+# =============================================================================== C16: masking comes before any conversion
+def mk_mask_before_conversion(proc, ptype):
+    @unit('_iso8583_to_field[LLVAR,%s,%s]/conversion-sees-only-the-masked-value' % (proc, ptype), props=['C16'],
+          functions=[Q + '_iso8583_to_field', Q + '_pan_prefix', 'cardutil.card.mask'])
+    def u(E):
+        """an element configured for masking AND for a python type: the type conversion (`_string_to_pytype`, by contract: any
+        value or ValueError) is handed the masked value / the first nine characters, never the clear text, and what is
+        returned under the element's key is that conversion's result -- so the clear PAN cannot come back as a number"""
+        enc, cd = codec(E)
+        data = E.fresh_seq('bytes', 'data')
+        seen = []
+        result = VInt(E.fresh_int('converted'))
+
+        def conv(E2, args, kw):
+            seen.append(args[0])
+            if E.branch(E.fresh_bool('conversion_fails')):
+                raise PyRaise(E.make_exc(ValueError, []))
+            return result
+        E.contracts[Q + '_string_to_pytype'] = conv
+        cfg = cfg_dict(E, 'LLVAR', 0, ptype=ptype, proc=proc)
+        tag = '_iso8583_to_field[LLVAR,%s,%s]' % (proc, ptype)
+        try:
+            out = E.call(Q + '_iso8583_to_field', VInt(2), cfg, data, enc)
+        except PyRaise as pr:
+            expect_lib_error(E, tag, pr)
+            return
+        E.prove(tag + '/converted-exactly-once', z3.BoolVal(len(seen) == 1), 'P')
+        if len(seen) != 1:
+            return
+        v = seen[0]
+        ok = isinstance(v, VSeq) and v.kind == 'str'
+        E.prove(tag + '/conversion-input-is-text', z3.BoolVal(ok), 'P')
+        if not ok:
+            return
+        L = (I(cd.DEC(I(data.at(z3.IntVal(0))))) - 48) * 10 + (I(cd.DEC(I(data.at(z3.IntVal(1))))) - 48)
+        j = E.fresh_int('j')
+        if proc == 'PAN':
+            E.prove(tag + '/conversion-never-sees-a-middle-digit', z3.Implies(z3.And(v.n >= 10, j >= 6, j < v.n - 4), I(v.at(j)) == 42), 'P')
+        else:
+            E.prove(tag + '/conversion-sees-at-most-nine-characters', v.n <= 9, 'P')
+        parts = result_parts(E, out)
+        E.prove(tag + '/returns-(dict,increment)', z3.BoolVal(parts is not None), 'P')
+        if parts is None:
+            return
+        ents = dict_entries(E, parts[0])
+        got = ents.get('DE2')
+        E.prove(tag + '/returned-value-is-the-conversion-result', z3.BoolVal(got is result), 'P')
+        E.prove(tag + '/exactly-one-entry', z3.BoolVal(set(k for k in ents if not k.startswith('<')) == {'DE2'}), 'P')
+    return u
+
+
+for _p in ('PAN', 'PAN-PREFIX'):
+    for _t in ('int', 'decimal'):
+        mk_mask_before_conversion(_p, _t)
